@@ -121,6 +121,12 @@ func c06Trees(quick bool) []*treeSpec {
 		}
 		trees = append(trees, t)
 	}
+	// long names (Rock Ridge NM entries that need a continuation area; Joliet allows 64 characters), alone and in pairs
+	for _, n := range []int{64, 100, 150, 200, 250} {
+		trees = append(trees, &treeSpec{Tag: fmt.Sprint("name", n), Files: map[string][]byte{strings.Repeat("n", n-4) + ".txt": defaultContent("ln", 9)}})
+	}
+	trees = append(trees, &treeSpec{Tag: "names100x3", Dirs: []string{"sub-" + strings.Repeat("d", 96)}, Files: map[string][]byte{strings.Repeat("p", 100): defaultContent("p", 3), strings.Repeat("q", 100): defaultContent("q", 4),
+		"sub-" + strings.Repeat("d", 96) + "/" + strings.Repeat("r", 64): defaultContent("r", 5)}})
 	return trees
 }
 
@@ -373,6 +379,10 @@ func C06(r *ev.Run) {
 						}
 						deep := len(trees[ti].Dirs) >= 8
 						cases = append(cases, isoCase{Tree: ti, Tier: r.Tier, RockRidge: rr, Joliet: jo, Deep: deep, VolID: vol, Blocksize: bs, Start: start})
+						if deep && bs == 2048 {
+							// the same chain without DeepDirectories: refused, or (Rock Ridge) relocated
+							cases = append(cases, isoCase{Tree: ti, Tier: r.Tier, RockRidge: rr, Joliet: jo, Deep: false, VolID: vol, Blocksize: bs, Start: start})
+						}
 					}
 				}
 			}
@@ -385,10 +395,20 @@ func C06(r *ev.Run) {
 		sig, msg, out := runISOCase(c, trees[c.Tree])
 		outcomes.add(out)
 		if out == "ok" {
-			ok.add(fmt.Sprintf("%d|%v|%v|%d|%d", c.Tree, c.RockRidge, c.Joliet, c.Blocksize, c.Start))
+			ok.add(fmt.Sprintf("%d|%v|%v|%v|%d|%d", c.Tree, c.RockRidge, c.Joliet, c.Deep, c.Blocksize, c.Start))
 		}
 		if sig != "" {
 			c.Desc = trees[c.Tree].describe()
+			// named shapes are part of the signature (ahead of any panic text, which is normalised), except for the
+			// block-size finding, which is independent of the tree
+			if !strings.Contains(sig, "bs>2048") {
+				if tag := trees[c.Tree].Tag; tag != "" {
+					sig = tag + "|" + sig
+				}
+				if len(trees[c.Tree].Dirs) >= 8 && !c.Deep {
+					sig = fmt.Sprintf("chain%d-without-DeepDirectories|", len(trees[c.Tree].Dirs)) + sig
+				}
+			}
 			r.Report("c06|"+sig, msg, c)
 		}
 		if i%(len(cases)/5+1) == 0 {
